@@ -1,13 +1,13 @@
 package sym
 
 import (
-	"strings"
-	"path/filepath"
-	"time"
-	"runtime"
 	"fmt"
 	"go/token"
 	"go/types"
+	"path/filepath"
+	"runtime"
+	"strings"
+	"time"
 
 	"golang.org/x/tools/go/ssa"
 )
